@@ -261,10 +261,35 @@ TriInside(R, t) == /\ InPolyScaled(R, t[1], t[2], 1) /\ InPolyScaled(R, t[3], t[
                    /\ InPolyScaled(R, t[1] + t[3] + t[5], t[2] + t[4] + t[6], 3)          \* centroid
                    /\ InPolyScaled(R, t[1] + t[3], t[2] + t[4], 2) /\ InPolyScaled(R, t[3] + t[5], t[4] + t[6], 2)
                    /\ InPolyScaled(R, t[1] + t[5], t[2] + t[6], 2)                        \* edge midpoints
-TriOK(k) == LET T == Tris[k] R == Cat[T.r] IN
-  /\ Len(T.cum2) = Len(T.tris)
-  /\ \A j \in 1..Len(T.tris) : T.cum2[j] = Running(T.tris, j) /\ Area2(T.tris[j]) > 0 /\ TriInside(R, T.tris[j])
-  /\ Running(T.tris, Len(T.tris)) = 2 * Measure(R)
+\* area of a rectilinear planar set (primitive polygon or composition) by counting the quarter
+\* cells (2 x 2 lattice units, features lie on even coordinates) whose centre is a member at height h
+CellArea(R, h) == LET bb == AABB(R).b IN
+  4 * Cardinality({xy \in ((bb[1] \div 2)..((bb[2] \div 2) - 1)) \X ((bb[3] \div 2)..((bb[4] \div 2) - 1)) :
+                     Member(R, <<2 * xy[1] + 1, 2 * xy[2] + 1, h>>)})
+\* the centroid of a triangle lies in the set: its quarter cell (when it is not on a cell line) is not "out"
+CentroidIn(R, h, t) == LET sx == t[1] + t[3] + t[5] sy == t[2] + t[4] + t[6] IN
+  (sx % 6 = 0 \/ sy % 6 = 0) \/ Cell(R, <<2 * (sx \div 6) + 1, 2 * (sy \div 6) + 1, h>>) # "out"
+\* The triangulation behind PolygonalRegion.uniformPointInner, for a primitive polygon or for the
+\* PolygonalRegion a composition returned (T.r may be a composite record): the cumulative weights
+\* handed to random.choices are the running sum of the triangle areas over the WHOLE list of
+\* triangles (all connected components), hence strictly increasing, and their last entry is the
+\* measure of the set; every triangle has positive area and lies in the set.
+TriFacts(k) == LET T == Tris[k] R == Cat[T.r] n == Len(T.tris) h == Height(R) IN
+  [len |-> Len(T.cum2) = n /\ n > 0,
+   running |-> Len(T.cum2) = n /\ \A j \in 1..n : T.cum2[j] = Running(T.tris, j),
+   monotone |-> Len(T.cum2) = n /\ n > 0 /\ T.cum2[1] > 0 /\ \A j \in 2..n : T.cum2[j] > T.cum2[j - 1],
+   positive |-> \A j \in 1..n : Area2(T.tris[j]) > 0,
+   total |-> h.t = "z" /\ Running(T.tris, n) = 2 * CellArea(R, h.v)
+             /\ (R.k = "poly" => Running(T.tris, n) = 2 * Measure(R))
+             /\ (Len(T.cum2) = n /\ n > 0 => T.cum2[n] = 2 * CellArea(R, h.v)),
+   inside |-> h.t = "z" /\ \A j \in 1..n : CentroidIn(R, h.v, T.tris[j]) /\ (R.k = "poly" => TriInside(R, T.tris[j]))]
+TriOK(k) == LET f == TriFacts(k) IN f.len /\ f.running /\ f.monotone /\ f.positive /\ f.total /\ f.inside
+\* the law with which a triangle must be selected: area / total (as <<2*area, 2*total>>)
+TriLaw(k) == [j \in 1..Len(Tris[k].tris) |-> <<Area2(Tris[k].tris[j]), Running(Tris[k].tris, Len(Tris[k].tris))>>]
+\* spec-level lemma: the running sums of positive areas select triangle j with probability area/total
+\* (differences of consecutive cumulative weights over the last one)
+TriLawSound == mode = "tri" => \A j \in 1..Len(Tris[c].tris) :
+  (Running(Tris[c].tris, j) - Running(Tris[c].tris, j - 1)) * TriLaw(c)[j][2] = TriLaw(c)[j][1] * Running(Tris[c].tris, Len(Tris[c].tris))
 
 \* ---------------------------------------------------------------- printed results
 Emit ==
@@ -278,7 +303,7 @@ Emit ==
                                          /\ \E j \in 1..Len(Cat[Disc[c].ps].s) : FootMember(Cat[Disc[c].b], Cat[Disc[c].ps].s[j]) /\ ~Member(Cat[Disc[c].b], Cat[Disc[c].ps].s[j])
                                       THEN {"pointset-footprint-membership"} ELSE {})]))
   /\ (mode = "prim") => PrintT(ToJson([t |-> "prim", k |-> c, cls |-> [j \in 1..Len(Prims[c].smp) |-> Cell(Cat[Prims[c].r], Prims[c].smp[j])]]))
-  /\ (mode = "tri") => PrintT(ToJson([t |-> "tri", k |-> c, ok |-> TriOK(c)]))
+  /\ (mode = "tri") => PrintT(ToJson([t |-> "tri", k |-> c, ok |-> TriOK(c), facts |-> TriFacts(c), law |-> TriLaw(c)]))
   /\ (mode = "abs" /\ pc \in {"u-choose", "i-draw", "d-draw"} /\ hist = <<>>) =>
         (c % 97 # 0 \/ PrintT(ToJson([t |-> "abs", k |-> c, law |-> [a \in 1..Len(ACases[c].meas) |-> RetW(c, a)], total |-> RetTotal(c)])))
 =============================================================================
